@@ -2,10 +2,12 @@
 use crate::Property;
 
 pub mod c01;
+pub mod c19;
 
 pub fn lookup(id: &str) -> Option<&'static dyn Property> {
     let p: &'static dyn Property = match id {
         "C01" => &c01::C01,
+        "C19" => &c19::C19,
         _ => return None,
     };
     Some(p)
